@@ -100,6 +100,26 @@ fn gen_input(t: &mut Tape) -> (Vec<InLine>, bool, bool) {
         let paths: Vec<String> = case.sections().iter().map(|s| s.new_path.clone()).collect();
         case.items.insert(0, crate::gen::diff::Item::Commit(crate::gen::diff::gen_commit(t, &paths)));
     }
+    // diff.submodule = log: a submodule entry has no `diff` line; it stands where a file section
+    // would, e.g. directly after a hunk that ends in removed/added lines
+    if t.chance(1, 5) {
+        let n = t.range(1, 2);
+        for _ in 0..n {
+            let at = t.below(case.items.len() + 1);
+            let h = |t: &mut Tape| format!("{:07x}", t.below(0x0fff_ffff));
+            let mut block = vec![match t.below(3) {
+                0 => format!("Submodule libs/{} {}..{}:", crate::gen::text::ident(t), h(t), h(t)),
+                1 => format!("Submodule {} {}...{} (rewind):", crate::gen::text::ident(t), h(t), h(t)),
+                _ => format!("Submodule vendor/{} contains modified content", crate::gen::text::ident(t)),
+            }];
+            if !block[0].ends_with("content") {
+                for _ in 0..t.range(1, 3) {
+                    block.push(format!("  {} {}", t.ps(&[">", "<"]), crate::gen::text::ident(t)));
+                }
+            }
+            case.items.insert(at, crate::gen::diff::Item::Free(block));
+        }
+    }
     let mut lines = case.render();
     // (git hands interactive.diffFilter whole file diffs including their headers)
     let colored = t.chance(3, 5);
